@@ -205,14 +205,37 @@ fn tov(r: Result<Result<bool, String>, Panicked>) -> V {
     }
 }
 
+thread_local! {
+    /// verification calls are made by the interpreter's helper thread (a second long-lived thread of
+    /// the same caller, taking turns with the one that proves and changes the tree)
+    static VERIFY_ON_HELPER: std::cell::Cell<bool> = const { std::cell::Cell::new(false) };
+}
+
+/// set per case by the properties; returns the label to record
+pub fn verify_on_second_thread(on: bool) {
+    VERIFY_ON_HELPER.with(|c| c.set(on));
+}
+
+fn verifier_thread<R>(f: impl FnOnce() -> R) -> R {
+    if VERIFY_ON_HELPER.with(|c| c.get()) {
+        let io = gens::io_style();
+        on_helper(|| {
+            gens::set_io_style(io);
+            f()
+        })
+    } else {
+        f()
+    }
+}
+
 pub fn call_verify(r: &RLN, input: &[u8]) -> V {
-    tov(guarded(|| r.verify(gens::rd(input)).map_err(|e| e.to_string())))
+    verifier_thread(|| tov(guarded(|| r.verify(gens::rd(input)).map_err(|e| e.to_string()))))
 }
 pub fn call_verify_rln(r: &RLN, input: &[u8]) -> V {
-    tov(guarded(|| r.verify_rln_proof(gens::rd(input)).map_err(|e| e.to_string())))
+    verifier_thread(|| tov(guarded(|| r.verify_rln_proof(gens::rd(input)).map_err(|e| e.to_string()))))
 }
 pub fn call_verify_roots(r: &RLN, input: &[u8], roots: &[u8]) -> V {
-    tov(guarded(|| r.verify_with_roots(gens::rd(input), gens::rd(roots)).map_err(|e| e.to_string())))
+    verifier_thread(|| tov(guarded(|| r.verify_with_roots(gens::rd(input), gens::rd(roots)).map_err(|e| e.to_string()))))
 }
 
 /// Independent acceptability of a verification input derived from a golden message.
